@@ -878,3 +878,247 @@ Proof.
 Qed.
 
 End DFS.
+
+(* ------------------------------------------------------------------ *)
+(** ** Reachability *)
+
+(** [h] is an input gate of gate [g] *)
+Definition child (c : circuit) (g h : nat) : Prop :=
+  exists gt l, nth_error (gates c) g = Some gt /\ In l (gins gt) /\ latom l = AGate h.
+
+Inductive Reach (c : circuit) (roots : list lit) : nat -> Prop :=
+| Reach_root : forall r g, In r roots -> latom r = AGate g -> Reach c roots g
+| Reach_step : forall g h, Reach c roots g -> child c g h -> Reach c roots h.
+
+(** one or more steps *)
+Inductive Path (c : circuit) (g : nat) : nat -> Prop :=
+| Path_one : forall h, child c g h -> Path c g h
+| Path_step : forall h h', Path c g h -> child c h h' -> Path c g h'.
+
+Lemma gate_atoms_In : forall ls g, In g (gate_atoms ls) <-> exists l, In l ls /\ latom l = AGate g.
+Proof.
+  intros ls g. unfold gate_atoms. rewrite in_flat_map. split.
+  - intros [l [Hl Hg]]. exists l. split; [exact Hl|]. destruct (latom l); simpl in Hg; try contradiction.
+    destruct Hg as [E|[]]. congruence.
+  - intros [l [Hl E]]. exists l. split; [exact Hl|]. rewrite E. left. reflexivity.
+Qed.
+
+Lemma succs_child : forall c g h, In h (succs c g) <-> child c g h.
+Proof.
+  intros c g h. unfold succs, child. destruct (nth_error (gates c) g) as [gt|].
+  - rewrite gate_atoms_In. split.
+    + intros [l [Hl E]]. exists gt, l. auto.
+    + intros [gt' [l [Hg [Hl E]]]]. inversion Hg. subst. exists l. auto.
+  - split; [intros [] | intros [gt [l [Hg _]]]; discriminate].
+Qed.
+
+Lemma add_new_In : forall xs acc x, In x (add_new xs acc) <-> In x xs \/ In x acc.
+Proof.
+  induction xs as [|y r IH]; intros acc x; simpl.
+  - tauto.
+  - destruct (memn y acc) eqn:E.
+    + apply memn_In in E. rewrite IH. split; [tauto|]. intros [[H|H]|H]; subst; auto.
+    + rewrite IH, in_app_iff. simpl. tauto.
+Qed.
+
+(** everything [close] returns satisfies a property that holds of the start
+    set and is closed under [child] *)
+Lemma close_sound : forall c (P : nat -> Prop),
+  (forall g h, P g -> child c g h -> P h) ->
+  forall fuel acc, (forall x, In x acc -> P x) -> forall x, In x (close c fuel acc) -> P x.
+Proof.
+  intros c P Hstep. induction fuel as [|f IH]; intros acc Hacc x Hx; simpl in Hx.
+  - auto.
+  - apply (IH _) in Hx; [exact Hx|]. intros y Hy. apply add_new_In in Hy. destruct Hy as [Hy|Hy]; [|auto].
+    apply in_flat_map in Hy. destruct Hy as [g [Hg Hy]]. apply succs_child in Hy. eauto.
+Qed.
+
+Lemma reach_sound : forall c roots g, In g (reach c roots) -> Reach c roots g.
+Proof.
+  intros c roots g H. unfold reach in H.
+  apply (close_sound c (Reach c roots)) in H; [exact H | |].
+  - intros x y Hx Hc. eapply Reach_step; eauto.
+  - intros x Hx. apply add_new_In in Hx. destruct Hx as [Hx|[]].
+    apply gate_atoms_In in Hx. destruct Hx as [l [Hl E]]. eapply Reach_root; eauto.
+Qed.
+
+Lemma on_cycle_sound : forall c g, on_cycle_b c g = true -> Path c g g.
+Proof.
+  intros c g H. unfold on_cycle_b in H. apply memn_In in H.
+  apply (close_sound c (Path c g)) in H; [exact H | |].
+  - intros x y Hx Hc. eapply Path_step; eauto.
+  - intros x Hx. apply add_new_In in Hx. destruct Hx as [Hx|[]].
+    apply succs_child in Hx. apply Path_one. exact Hx.
+Qed.
+
+(* ------------------------------------------------------------------ *)
+(** ** Soundness of the model simplifier: every [Ok] answer satisfies the C18 predicate *)
+
+Section Sound.
+Variable c : circuit.
+Variable roots : list lit.
+Variable c' : circuit.
+Variable gm : list lit.
+Hypothesis Hsimp : simplify c roots = Ok (c', gm).
+
+Lemma simp_core : exists order,
+  Inv c (mkState gm (gates c')) order /\ n_inputs c' = n_inputs c /\
+  forall r g, In r roots -> latom r = AGate g -> In g order.
+Proof.
+  unfold simplify in Hsimp.
+  destruct (simplify_roots c (S (num_gates c)) roots (mkState (repeat UNDEF (num_gates c)) [])) as [st| | |] eqn:E;
+    try discriminate.
+  inversion Hsimp. subst c' gm. clear Hsimp.
+  destruct (simplify_roots_spec c _ _ _ _ _ (Inv_init c) E) as [order [I [_ R]]].
+  exists order. destruct st as [gm0 gs0]. simpl. auto.
+Qed.
+
+(** [simp_nf]: the result is in normal form (conditions 1-5, in scope, topologically sorted) *)
+Theorem simp_nf : NF c'.
+Proof.
+  destruct simp_core as [order [I [Hn _]]]. pose proof (inv_nf _ _ _ I) as H. simpl in H.
+  destruct c' as [n' gs']. simpl in *. subst n'. exact H.
+Qed.
+
+Lemma simp_n_inputs : n_inputs c' = n_inputs c.
+Proof. destruct simp_core as [order [_ [Hn _]]]. exact Hn. Qed.
+
+Lemma order_lt : forall order, Inv c (mkState gm (gates c')) order -> forall g, In g order -> g < num_gates c.
+Proof.
+  intros order I g Hg. apply (inv_fin _ _ _ I) in Hg. destruct Hg as [m [Hm _]]. simpl in Hm.
+  rewrite <- (inv_len _ _ _ I). simpl. apply nth_error_Some. congruence.
+Qed.
+
+Lemma order_length : forall order, Inv c (mkState gm (gates c')) order -> length order <= num_gates c.
+Proof.
+  intros order I.
+  assert (H : incl order (seq 0 (num_gates c))).
+  { intros g Hg. apply in_seq. pose proof (order_lt order I g Hg). lia. }
+  pose proof (NoDup_incl_length (inv_nodup _ _ _ I) H) as L. rewrite seq_length in L. exact L.
+Qed.
+
+(** every finished gate has the same value as its image, under every assignment *)
+Lemma finished_equiv : forall order, Inv c (mkState gm (gates c')) order ->
+  forall g, In g order -> exists m, nth_error gm g = Some m /\
+    LitValid (n_inputs c') (num_gates c') m /\
+    forall a, exists b, eval c a (gate_lit false g) = Some b /\ eval c' a m = Some b.
+Proof.
+  intros order I g Hg. pose proof Hg as Hg'. apply (inv_fin _ _ _ I) in Hg'.
+  destruct Hg' as [m [Hm Hf]]. simpl in Hm. exists m. split; [exact Hm|].
+  destruct (inv_link _ _ _ I g m Hm Hf) as [Hv Hs]. simpl in Hv, Hs.
+  pose proof simp_n_inputs as Hn. split; [rewrite Hn; exact Hv|].
+  intros a. destruct (Hs a) as [b [H1 H2]]. exists b. split.
+  - unfold eval. eapply eval_lit_mono; [exact H1|]. pose proof (order_length order I). lia.
+  - destruct c' as [n' gs']. simpl in *. subst n'. exact H2.
+Qed.
+
+Lemma reach_in_order : forall order, Inv c (mkState gm (gates c')) order ->
+  (forall r g, In r roots -> latom r = AGate g -> In g order) ->
+  forall g, Reach c roots g -> In g order.
+Proof.
+  intros order I R g H. induction H as [r g Hr Hg | g h _ IH [gt [l [Hgt [Hl Hh]]]]].
+  - eauto.
+  - pose proof (inv_closed _ _ _ I g gt l IH Hgt Hl) as Hc. unfold child_ok in Hc. rewrite Hh in Hc. exact Hc.
+Qed.
+
+Lemma eval_nongate : forall c1 c2 a l, n_inputs c1 = n_inputs c2 ->
+  (forall g, latom l <> AGate g) -> eval c1 a l = eval c2 a l.
+Proof.
+  intros c1 c2 a [s [ | i | g | ]] Hn H; unfold eval; simpl; try reflexivity.
+  - rewrite Hn. reflexivity.
+  - exfalso. apply (H g). reflexivity.
+Qed.
+
+(** [simp_equiv]: every literal over the reachable gates (in particular every
+    root) denotes the same function of the inputs before and after, through the
+    gate map; gate literals have a value (the fragment is acyclic and in scope) *)
+Theorem simp_equiv : forall l,
+  (forall g, latom l = AGate g -> Reach c roots g) ->
+  forall a, eval c a l = eval c' a (apply_gate_map gm l) /\
+            (forall g, latom l = AGate g -> eval c a l <> None).
+Proof.
+  intros l Hl a. destruct simp_core as [order [I [Hn R]]].
+  destruct l as [s [ | i | g | ]].
+  - split; [apply eval_nongate; [symmetry; exact Hn | intros g E; discriminate] | intros g E; discriminate].
+  - split; [apply eval_nongate; [symmetry; exact Hn | intros g E; discriminate] | intros g E; discriminate].
+  - pose proof (reach_in_order order I R g (Hl g eq_refl)) as Hg.
+    destruct (finished_equiv order I g Hg) as [m [Hm [_ Hs]]]. destruct (Hs a) as [b [H1 H2]].
+    unfold apply_gate_map. simpl. rewrite Hm. unfold eval in *. rewrite eval_lit_lxor, H2.
+    rewrite eval_lit_polarity. unfold gate_lit in H1. rewrite H1. simpl.
+    split; [reflexivity | intros g' _; discriminate].
+  - split; [apply eval_nongate; [symmetry; exact Hn | intros g E; discriminate] | intros g E; discriminate].
+Qed.
+
+(** the gate map is consistent with the new circuit *)
+Theorem simp_map_consistent : MapConsistent c c' gm roots.
+Proof.
+  destruct simp_core as [order [I [Hn R]]]. constructor.
+  - exact (inv_len _ _ _ I).
+  - intros m Hm. apply In_nth_error in Hm. destruct Hm as [g Hg].
+    destruct (finished_dec m) as [[E|E]|F].
+    + left. exact E.
+    + (* no DISCOVERED marker survives an Ok run *)
+      exfalso. subst m. unfold simplify in Hsimp.
+      destruct (simplify_roots c (S (num_gates c)) roots (mkState (repeat UNDEF (num_gates c)) [])) as [st| | |] eqn:Es;
+        try discriminate.
+      inversion Hsimp. subst. destruct (simplify_roots_spec c _ _ _ _ _ (Inv_init c) Es) as [o [_ [E _]]].
+      apply (ext_disc _ _ _ _ E) in Hg. simpl in Hg. apply nth_error_In in Hg. apply repeat_spec in Hg. discriminate.
+    + right. assert (Hin : In g order) by (apply (inv_fin _ _ _ I); exists m; auto).
+      destruct (finished_equiv order I g Hin) as [m' [Hm' [Hv _]]]. simpl in Hg. congruence.
+  - intros g Hg. apply reach_sound in Hg. pose proof (reach_in_order order I R g Hg) as Hin.
+    destruct (finished_equiv order I g Hin) as [m [Hm [Hv _]]]. eauto.
+Qed.
+
+(** no gate reachable from the roots lies on a cycle or mentions an unknown input *)
+Lemma path_after : forall order, Inv c (mkState gm (gates c')) order ->
+  forall g h, Path c g h -> forall pre post, order = pre ++ g :: post -> In h post.
+Proof.
+  intros order I g h P. induction P as [h [gt [l [Hgt [Hl Hh]]]] | h h' _ IH [gt [l [Hgt [Hl Hh]]]]];
+    intros pre post Ho.
+  - eapply (inv_before _ _ _ I); eauto.
+  - specialize (IH pre post Ho). apply in_split in IH. destruct IH as [p1 [p2 Hp]].
+    assert (Ho' : order = (pre ++ g :: p1) ++ h :: p2).
+    { rewrite Ho, Hp. rewrite <- app_assoc. reflexivity. }
+    pose proof (inv_before _ _ _ I _ _ _ gt l h' Ho' Hgt Hl Hh) as Hin.
+    rewrite Hp. apply in_or_app. right. right. exact Hin.
+Qed.
+
+Theorem simp_no_err_condition : should_err_b c roots = false.
+Proof.
+  destruct simp_core as [order [I [Hn R]]].
+  unfold should_err_b. destruct (existsb _ (reach c roots)) eqn:E; [|reflexivity]. exfalso.
+  apply existsb_exists in E. destruct E as [g [Hg Hb]].
+  apply reach_sound in Hg. pose proof (reach_in_order order I R g Hg) as Hin.
+  apply orb_true_iff in Hb. destruct Hb as [Hb|Hb].
+  - apply on_cycle_sound in Hb. destruct (in_split _ _ Hin) as [pre [post Ho]].
+    pose proof (path_after order I g g Hb pre post Ho) as Hpost.
+    pose proof (inv_nodup _ _ _ I) as Hnd. rewrite Ho in Hnd. apply NoDup_remove_2 in Hnd.
+    apply Hnd. apply in_or_app. right. exact Hpost.
+  - destruct (nth_error (gates c) g) as [gt|] eqn:Egt; [|discriminate].
+    apply existsb_exists in Hb. destruct Hb as [l [Hl Hu]].
+    pose proof (inv_closed _ _ _ I g gt l Hin Egt Hl) as Hc.
+    unfold child_ok in Hc. unfold unknown_input_b in Hu. destruct (latom l); try discriminate.
+    + apply Nat.leb_le in Hu. lia.
+    + exact Hc.
+Qed.
+
+(** The model's [Ok] answers satisfy exactly the executable predicate that the
+    driver applies to the answers of the implementation. *)
+Theorem simp_ok_answer : ok_answer_b c roots c' gm = true.
+Proof.
+  unfold ok_answer_b. rewrite simp_no_err_condition. simpl.
+  pose proof simp_n_inputs as Hn. rewrite Hn, Nat.eqb_refl. simpl.
+  rewrite (proj2 (nf_b_spec c') simp_nf). simpl.
+  rewrite (proj2 (map_consistent_b_spec c c' gm roots) simp_map_consistent). simpl.
+  assert (Hobs : forall l, In l (observed c roots) -> forall g, latom l = AGate g -> Reach c roots g).
+  { intros l Hl g E. unfold observed in Hl. apply in_app_or in Hl. destruct Hl as [Hl|Hl].
+    - eapply Reach_root; eauto.
+    - apply in_map_iff in Hl. destruct Hl as [g' [E' Hg']]. subst l. simpl in E. inversion E. subst.
+      apply reach_sound. exact Hg'. }
+  rewrite (proj2 (equiv_b_spec (n_inputs c) c c' gm (observed c roots) eq_refl Hn)).
+  - simpl. apply (defined_b_spec (n_inputs c) c _ eq_refl).
+    intros a l g Hl E. exact (proj2 (simp_equiv l (Hobs l Hl) a) g E).
+  - intros a l Hl. exact (proj1 (simp_equiv l (Hobs l Hl) a)).
+Qed.
+
+End Sound.
